@@ -200,7 +200,22 @@ def handle (j : Json) : Except String Json := do
        | .ok l => Json.mkObj [("ok", .arr (l.map sexprJ).toArray)]
        | .error _ => Json.mkObj [("err", .bool true)])
     | _ => .null
+  -- `_check_branch` / `_always_returns` on (branch, rest) pairs cut out of the function by the harness: the model's
+  -- `branchOk`, the generated accepting conditions evaluated by `checkBranchG`, and `bodyReturns`; the `ast` classes the
+  -- model's constructors stand for
+  let cbReq ← jArr (fieldD j "cb" (.arr #[]))
+  let cbOut ← cbReq.mapM fun r => do
+    let b ← jList jPyStmt (← field r "b")
+    let rest ← jList jPyStmt (← field r "rest")
+    pure (Json.mkObj [("ok", .bool (branchOk rest b)),
+                      ("gen", .bool (checkBranchG Mxl.C06.Generated.checkBranchAccept rest b)),
+                      ("ret", .bool (bodyReturns b))])
+  let classes : Json := .arr (d.body.map fun st => Json.str (stmtClass st)).toArray
+  let retClass : Json := match single with
+    | some e => .str (exprClass e)
+    | none => .null
   pure (Json.mkObj [("tr", trJ tr), ("vals", .arr vals), ("py", .arr pys),
+                    ("cb", .arr cbOut.toArray), ("classes", classes), ("ret_class", retClass),
                     ("entry", Json.mkObj [("body", trJ bodyTr), ("loop", trJ loopTr), ("expr", exprJ), ("args", argsJ),
                                           ("other_params", .bool d.otherParams)]),
                     ("flags", Json.mkObj [])])
